@@ -2,7 +2,7 @@
 # usage: test_mutant.sh <Cxx-k> <check id> [tier]  -- run a check against a seeded mutant applied in a scratch worktree
 m=$1; chk=$2; tier=${3:-quick}; id=${m%-*}
 wt=/tmp/wt/mut_$m
-[ -d $wt ] || git -C /repo worktree add -q --detach $wt >/dev/null 2>&1
+[ -d $wt ] || git -C /repo worktree add -q --detach $wt >/dev/null 2>&1; git -C $wt checkout -q --detach $(git -C /repo rev-parse HEAD)
 git -C $wt checkout -q -- . && git -C $wt apply /verif/seeded/$m/patch.diff || { echo "apply failed"; exit 9; }
 mkdir -p /tmp/ev_$m
 CALMJS_VERIF_REPO=$wt CALMJS_VERIF_EVIDENCE=/tmp/ev_$m timeout ${TMO:-1800} /verif/check $chk --tier $tier > /tmp/ev_$m/$chk.log 2>&1; rc=$?
